@@ -12,6 +12,7 @@
 """
 from __future__ import annotations
 
+import gc
 import os
 from typing import Any, Callable, Dict, List, Optional, Tuple
 
@@ -46,7 +47,14 @@ def make_execute(plan: Callable[[Any, Chooser], tuple], oracle: Callable[[Any, A
                  observe: Optional[Callable[[Any, Any, Any], Any]] = None) -> Callable[[Any, List[int]], ExecResult]:
     """plan(params, chooser) -> (engine, scenario, ctx); oracle(world, params, ctx); observe(world, params, ctx)."""
 
+    count = [0]
+
     def execute(params: Any, prefix: List[int]) -> ExecResult:
+        # the pool workers run with the cyclic collector disabled and collect between scenarios only; one
+        # scenario here can be 10^4 executions (all 3-way splits), each leaving a loop/task graph behind
+        count[0] += 1
+        if count[0] % 300 == 0:
+            gc.collect()
         chooser = Chooser(prefix)
         engine, scenario, ctx = plan(params, chooser)
         w = run_world(engine, scenario, chooser)
@@ -165,6 +173,8 @@ class XClient(Client):
 
     def command(self, ev: tuple) -> bytes:
         name, args = ev[2], tuple(ev[3:])
+        if name == "after101":  # raw bytes a client may only send once it has seen the 101 (websocket frames)
+            return args[0]
         if name == "ackn":  # acknowledge at most n of the received-but-unacknowledged bytes of a stream
             sid, n = args
             have = self.h2.unacked.get(sid, 0)
@@ -179,9 +189,11 @@ class XClient(Client):
         return super().command(ev)
 
     def cmd_enabled(self, ev: tuple) -> bool:
+        name, args = ev[2], tuple(ev[3:])
+        if name == "after101":
+            return self.h1 is not None and self.h1.switched
         if self.h2 is None:
             return False
-        name, args = ev[2], tuple(ev[3:])
         if name in ("ack", "ackn"):
             return self.h2.unacked.get(args[0], 0) > 0
         if name == "winup" and args[0]:
